@@ -42,7 +42,7 @@ RULE = ("histories of 3-16 operations over a host lattice (example.com, sub./a.s
         "neighbours and 4 schemes: responses carrying 1-3 Set-Cookie headers (Domain from the same lattice incl. leading/"
         "trailing dot, upper case, foreign and IP; Path; Secure; Max-Age incl. 0/negative/invalid; Expires in three date "
         "formats incl. the epoch and garbage), clock advances, clear, clear_domain, save+load, filter_cookies queries. "
-        "Generator classes: heap clean-up at its threshold timed against passing deadlines (35-75 sliding cookies), Set-Cookie headers with shuffled/re-cased attributes and one non-attribute token in any position, one-attribute pairs (two consecutive Set-Cookie of one site differing in exactly one of value/Domain/Path/Secure/HttpOnly/Max-Age/Expires, or in nothing), acceptance, selection, expiry/overwrite, heap-pressure (>100 stale heap entries), persistence, IP-address hosts (unsafe jar), "
+        "Scripted deterministic histories (one per mechanism: acceptance lattice, expiry boundaries and deletions, persistence, clear/clear_domain, IP policy, treat_as_secure_origin, heap clean-up at its threshold, URL/header spellings, ClientSession redirect hops) run first on every seed. Generator classes: other spellings of the same history (URL case/port/userinfo/query/fragment, Set-Cookie separators, load into the same jar, a second jar in between), Secure cookies on jars with treat_as_secure_origin incl. near-miss origins, heap clean-up at its threshold timed against passing deadlines (35-75 sliding cookies), Set-Cookie headers with shuffled/re-cased attributes and one non-attribute token in any position, one-attribute pairs (two consecutive Set-Cookie of one site differing in exactly one of value/Domain/Path/Secure/HttpOnly/Max-Age/Expires, or in nothing), acceptance, selection, expiry/overwrite, heap-pressure (>100 stale heap entries), persistence, IP-address hosts (unsafe jar), "
         "malformed headers (correspondence only), ClientSession end-to-end. A history is non-trivial when at least one "
         "query returns a cookie or one cookie is refused; distinct by content.")
 TRUSTED_BASE = [
@@ -58,7 +58,7 @@ TRUSTED_BASE = [
 ASSUMPTIONS = [
     "filter_cookies returns a name-keyed map, so of several attachable cookies with one name only one is observable; "
     "the oracle requires that value to be one the reference store would attach and every attachable name to be present",
-    "treat_as_secure_origin is empty; quote_cookie default",
+    "quote_cookie default; treat_as_secure_origin: the Lean model takes the secure? flag of a request as input, the harness computes it from the documented rule (origin = scheme, host, port) for the oracle and from a transcription of the code's yarl comparison for the model",
     "cookies set without a response URL (shared cookies of ClientSession(cookies=...)) are outside the property; they are "
     "covered by the correspondence run only",
 ]
@@ -74,6 +74,8 @@ PATHS = ["/", "/x", "/x/", "/x/y", "/xy", "/y", "/x//", "/x/y/z", "/x/y/", "//"]
 COOKIE_PATHS = [None, None, None, "/", "/x", "/x/", "/x/y", "/xy", "/y", "/x//", "x", "", "//"]
 NAMES = ["a", "a", "a", "b", "c", "sid"]
 SCHEMES = ["http", "https", "ws", "wss"]
+SECURE_ORIGINS = ["http://example.com", "http://sub.example.com:8080", "ws://example.com", "http://127.0.0.1",
+                  "http://example.com/some/path?q=1", "HTTP://SUB.EXAMPLE.COM", "http://example.com:80", "https://example.com:8443"]
 IP_HOSTS = ["127.0.0.1", "1.127.0.0.1", "127.0.0.1", "27.0.0.1", "[::1]", "example.com"]
 IP_DOMAINS = ["127.0.0.1", "0.0.1", ".0.0.1", "1.127.0.0.1", ".127.0.0.1", "::1", "1", "example.com"]
 
@@ -167,7 +169,11 @@ def attr_tokens(c):
 def header_of(c):
     if "hdr" in c:
         return c["hdr"]
-    return "; ".join([f"{c['name']}={c['value']}"] + [t for _, t in attr_tokens(c)])
+    sp = c.get("spell") or {}
+    toks = [t for _, t in attr_tokens(c)]
+    if sp.get("eq"):
+        toks = [t.replace("=", sp["eq"], 1) for t in toks]
+    return sp.get("sep", "; ").join([f"{c['name']}={c['value']}"] + toks) + sp.get("trail", "")
 
 
 def nozone(c):
@@ -257,10 +263,91 @@ def parsed_raws(headers):
     return out
 
 
-def url_parts(url):
+DEFAULT_PORT = {"http": 80, "https": 443, "ws": 80, "wss": 443}
+
+
+def _split(url):
+    from urllib.parse import urlsplit
+    u = urlsplit(url)
+    scheme = u.scheme.lower()
+    host = (u.hostname or "").lower()
+    return scheme, host, (u.port or DEFAULT_PORT.get(scheme)), (u.path or "/")
+
+
+def code_secure(url, origins=()):
+    """`is_not_secure` the way the code that exists computes it: `request_url.origin() in treat_as_secure_origin`
+    compares yarl URLs, for which an explicitly written default port (`http://h:80`) differs from an implicit one"""
+    from urllib.parse import urlsplit
+    def key(x):
+        u = urlsplit(x)
+        return (u.scheme.lower(), (u.hostname or "").lower(), u.port)
+    return key(url)[0] in ("https", "wss") or any(key(o) == key(url) for o in origins)
+
+
+def url_parts(url, origins=()):
+    """(host, path, secure?) of a URL, read with urllib — not with yarl, which the implementation uses.
+    secure = https/wss, or the URL's origin (scheme, host, port with defaults) is one of the jar's
+    `treat_as_secure_origin` origins (documented CookieJar option)"""
+    scheme, host, port, path = _split(url)
+    secure = scheme in ("https", "wss") or any(_split(o)[:3] == (scheme, host, port) for o in origins)
+    return host, path, secure
+
+
+def config_of(ops):
+    return ops[0][1] if ops and ops[0][0] == "O" else {}
+
+
+def make_jar(allow_ip, cfg):
+    from aiohttp.cookiejar import CookieJar
     from yarl import URL
-    u = URL(url)
-    return u.raw_host, u.path, u.scheme in ("https", "wss")
+    o = cfg.get("origins")
+    if not o:
+        return CookieJar(unsafe=allow_ip)
+    form = cfg.get("form", "list")
+    if form == "str":
+        t = o[0]
+    elif form == "url":
+        t = URL(o[0])
+    elif form == "mixed":
+        t = [URL(x) if i % 2 else x for i, x in enumerate(o)]
+    else:
+        t = list(o)
+    return CookieJar(unsafe=allow_ip, treat_as_secure_origin=t)
+
+
+def eff_origins(cfg):
+    o = cfg.get("origins") or []
+    return o[:1] if cfg.get("form") in ("str", "url") else o
+
+
+def decorate_url(r, url):
+    """the same URL in another spelling: letter case of scheme and host, explicit default port, another port,
+    userinfo, query, fragment — none of which RFC 6265 lets matter for cookies (secure-origin matching aside)"""
+    from urllib.parse import urlsplit
+    u = urlsplit(url)
+    scheme, host, path = u.scheme, u.netloc, u.path
+    x = r.random()
+    if x < 0.2:
+        scheme = scheme.upper()
+    if r.random() < 0.25 and not host.startswith("["):
+        host = host.upper() if r.random() < 0.5 else host.capitalize()
+    y = r.random()
+    if u.port is not None or "@" in host:
+        y = 1.0
+    if y < 0.15:
+        host += f":{DEFAULT_PORT[u.scheme.lower()]}"
+    elif y < 0.3:
+        host += ":" + r.choice(["8080", "8443", "81"])
+    if r.random() < 0.15 and "@" not in host:
+        host = "user:pw@" + host
+    tail = u.query and "?" + u.query or ""
+    if tail:
+        return f"{scheme}://{host}{path}{tail}"
+    if r.random() < 0.3:
+        tail += "?" + r.choice(["q=1", "a=b&c=/x/y", "x=a;Path=/"])
+    if r.random() < 0.2:
+        tail += "#" + r.choice(["f", "/x/y"])
+    return f"{scheme}://{host}{path}{tail}"
 
 
 # ------------------------------------------------------------------------------ generators
@@ -509,6 +596,57 @@ class Gen:
         ops.append(["X"])
         return ops
 
+    def spell(self, ops, origins_p=0.0):
+        """the same history in other spellings (URL forms, Set-Cookie separators), optionally on a jar configured
+        with treat_as_secure_origin, reloaded into the same jar object, with a second jar used in between"""
+        r = self.rng
+        out = []
+        cfg = {}
+        if r.random() < origins_p:
+            cfg["origins"] = r.sample(SECURE_ORIGINS, r.randint(1, 3))
+            cfg["form"] = r.choice(["str", "url", "list", "mixed"])
+        if r.random() < 0.3:
+            cfg["decoy"] = True
+        if cfg:
+            out.append(["O", cfg])
+        for op in ops:
+            if op[0] == "S" and op[1] is not None:
+                cs = []
+                for c in op[2]:
+                    if "hdr" not in c and r.random() < 0.5:
+                        c = dict(c, spell={"sep": r.choice([";", "; ", " ; ", ";  ", ";\t"]),
+                                           "eq": r.choice(["=", "=", " = ", "= "]), "trail": r.choice(["", "", ";", " ; "])})
+                    cs.append(c)
+                out.append(["S", decorate_url(r, op[1]), cs])
+            elif op[0] == "F":
+                out.append(["F", decorate_url(r, op[1])])
+            elif op[0] == "L" and r.random() < 0.5:
+                out.append(["L", "same"])
+            else:
+                out.append(op)
+        return out
+
+    def secure_origin(self):
+        """Secure cookies on a jar with treat_as_secure_origin: queries at the listed origins and at near misses
+        (other port, other scheme, sub-domain, parent)"""
+        r = self.rng
+        ops = []
+        for _ in range(r.randint(1, 3)):
+            h = r.choice(["example.com", "sub.example.com", "127.0.0.1"])
+            self.n += 1
+            c = {"name": r.choice(["a", "b", "sid"]), "value": f"v{self.n}", "secure": r.random() < 0.8, "path": "/"}
+            if r.random() < 0.5 and h != "127.0.0.1":
+                c["domain"] = "example.com"
+            ops.append(["S", f"https://{h}/", [c]])
+        for _ in range(r.randint(4, 9)):
+            sch = r.choice(["http", "http", "ws", "https"])
+            h = r.choice(["example.com", "sub.example.com", "127.0.0.1", "other.example.com"])
+            port = r.choice(["", "", ":80", ":8080", ":443"])
+            ops.append(["F", f"{sch}://{h}{port}/{r.choice(['', 'x'])}"])
+        ops.append(["X"])
+        ops = self.spell(ops, origins_p=1.0)
+        return ops
+
     def compaction(self):
         """the heap clean-up of _do_expiration at its threshold (> 100 entries and > 2 x live deadlines), timed against
         deadlines: n long-lived cookies with a sliding Max-Age refreshed in rounds until the heap is within a few
@@ -652,10 +790,22 @@ def run_impl(ops, allow_ip):
     from yarl import URL
     install_clock()
     CLOCK.now = float(NOW0)
-    jar = CookieJar(unsafe=allow_ip)
+    cfg = config_of(ops)
+    origins = eff_origins(cfg)
+    jar = make_jar(allow_ip, cfg)
+    decoy = make_jar(not allow_ip, {}) if cfg.get("decoy") else None
     segs, fouts, toks, rtoks = [], [], [], []
     for op in ops:
         k = op[0]
+        if decoy is not None and k in "SFL":
+            # a second jar in the same process, used in between, must not matter
+            decoy.update_cookies_from_headers(["a=decoy; Domain=example.com; Path=/; Max-Age=1", "b=decoy"],
+                                              URL("http://sub.example.com/x"))
+            decoy.filter_cookies(URL("http://example.com/"))
+            if k == "L":
+                decoy.clear()
+        if k == "O":
+            continue
         if k == "S":
             headers = [header_of(c) for c in op[2]]
             raws = parsed_raws(headers)
@@ -680,7 +830,8 @@ def run_impl(ops, allow_ip):
             pairs = [(n, m.value) for n, m in res.items()]
             fouts.append(dict(pairs))
             segs.append(canon_pairs(pairs))
-            toks.append(f"F|{st(u.raw_host or '')}|{st(u.path)}|{b01(u.scheme in ('https', 'wss'))}"); rtoks.append(toks[-1])
+            toks.append(f"F|{st(u.raw_host or '')}|{st(u.path)}|{b01(code_secure(op[1], origins))}")
+            rtoks.append(f"F|{st(u.raw_host or '')}|{st(u.path)}|{b01(url_parts(op[1], origins)[2])}")
         elif k == "C":
             jar.clear(); toks.append("C"); rtoks.append("C")
         elif k == "D":
@@ -688,9 +839,12 @@ def run_impl(ops, allow_ip):
         elif k == "L":
             p = tmp_path()
             jar.save(p)
-            jar2 = CookieJar(unsafe=allow_ip)
-            jar2.load(p)
-            jar = jar2
+            if len(op) > 1 and op[1] == "same":
+                jar.load(p)               # load() replaces the contents of the jar it is called on
+            else:
+                jar2 = make_jar(allow_ip, cfg)
+                jar2.load(p)
+                jar = jar2
             toks.append("L"); rtoks.append("L")
         elif k == "X":
             segs.append(dump_jar(jar)); toks.append("X"); rtoks.append("X")
@@ -904,8 +1058,11 @@ def classify_under(ref, cands, host, rpath):
                 return "C16/not-sent/stale-host-only-key", f"domain cookie {n} of {c['domain']} withheld from {host}"
     for o in earlier:
         oc = o["rc"]
+        # (only when the jar sees no valid expiry on the new cookie: no Max-Age and no usable Expires, or an invalid
+        #  Max-Age, which makes it skip Expires; a new cookie WITH its own deadline that is evicted early is another defect)
+        jar_sees_none = not isinstance(ev["ma"], int) and (ev["ma"] == "bad" or not isinstance(ev["ex"], int) or ev["ex"] == 0)
         if (oc["domain"], rstrip_key(oc["path"]), oc["name"]) == key and oc["expiry"] is not None and oc["expiry"] <= ref.now \
-                and (c["expiry"] is None or c["expiry"] > ref.now):
+                and (c["expiry"] is None or c["expiry"] > ref.now) and jar_sees_none:
             return "C16/not-sent/stale-expiry-after-overwrite", f"deadline {oc['expiry']} of the overwritten cookie applied"
     return "C16/not-sent/other", f"attachable cookie {n} missing"
 
@@ -941,6 +1098,7 @@ def _judge(ops, allow_ip, fouts):
     ref = RefStore(allow_ip)
     found, fi = [], 0
     ref_segs = []
+    origins = eff_origins(config_of(ops))
     for oi, op in enumerate(ops):
         k = op[0]
         if k == "S":
@@ -949,7 +1107,7 @@ def _judge(ops, allow_ip, fouts):
         elif k == "T":
             ref.now += op[1]
         elif k == "F":
-            host, rpath, secure = url_parts(op[1])
+            host, rpath, secure = url_parts(op[1], origins)
             host = host or ""
             cands = ref.select(host, rpath, secure)
             ref_segs.append(canon_pairs([(c["name"], c["value"]) for c in cands]))
@@ -961,6 +1119,10 @@ def _judge(ops, allow_ip, fouts):
                     found.append((sig, f"{op[1]}: {n}={v}: {detail}", oi, ("over", n, v)))
             for n in sorted({c["name"] for c in cands} - set(got)):
                 sig, detail = classify_under(ref, [c for c in cands if c["name"] == n], host, rpath)
+                if sig == "C16/not-sent/other" and secure and not code_secure(op[1], origins) \
+                        and all(c["secure"] for c in cands if c["name"] == n):
+                    sig, detail = "C16/not-sent/secure-origin-explicit-default-port", \
+                        "treat_as_secure_origin: an explicitly written default port (:80) on one side only defeats the origin match"
                 found.append((sig, f"{op[1]}: {n} not sent: {detail}", oi, ("under", n)))
         elif k == "C":
             ref.clear()
@@ -1042,7 +1204,7 @@ def report(ctx, ops, allow_ip, found):
 
 
 # ------------------------------------------------------------------------------ ClientSession end to end
-def run_session(ops):
+def run_session(ops, allow_ip=False):
     """the same operations through a real ClientSession: an S op is a GET answered with the Set-Cookie
     headers, an F op is a GET whose Cookie header is recorded. Returns (Cookie maps per request, equivalent jar ops)."""
     import aiohttp
@@ -1051,7 +1213,8 @@ def run_session(ops):
     install_clock()
     CLOCK.now = float(NOW0)
     sent = []
-    state = {"headers": []}
+    state = {"headers": [], "location": None}
+    cfg = config_of(ops)
 
     class T(asyncio.Transport):
         def __init__(self, loop, proto):
@@ -1062,8 +1225,10 @@ def run_session(ops):
                 head = bytes(self.buf).split(b"\r\n\r\n")[0].decode("latin-1"); self.buf.clear()
                 ck = [l.split(":", 1)[1].strip() for l in head.split("\r\n")[1:] if l.lower().startswith("cookie:")]
                 sent.append(ck)
-                resp = "HTTP/1.1 200 OK\r\nContent-Length: 0\r\nConnection: close\r\n" + \
-                    "".join(f"Set-Cookie: {h}\r\n" for h in state["headers"]) + "\r\n"
+                loc, hdrs = state["location"], state["headers"]
+                state["location"], state["headers"] = None, []      # the next hop gets a plain 200
+                resp = ("HTTP/1.1 302 Found\r\nLocation: " + loc + "\r\n" if loc else "HTTP/1.1 200 OK\r\n") + \
+                    "Content-Length: 0\r\nConnection: close\r\n" + "".join(f"Set-Cookie: {h}\r\n" for h in hdrs) + "\r\n"
                 self.loop.call_soon(self.proto.data_received, resp.encode("latin-1"))
         def writelines(self, l):
             for d in l: self.write(d)
@@ -1087,17 +1252,24 @@ def run_session(ops):
     jar_ops = []
 
     async def main():
-        async with aiohttp.ClientSession(connector=Conn()) as s:
+        def web(u):
+            return re.sub(r"^[wW][sS]([sS]?)://", lambda m: "http" + m.group(1).lower() + "://", u)
+        async with aiohttp.ClientSession(connector=Conn(), cookie_jar=make_jar(allow_ip, cfg)) as s:
+            if cfg:
+                jar_ops.append(["O", {k: v for k, v in cfg.items() if k != "decoy"}])
             for op in ops:
                 k = op[0]
-                if k in ("S", "F"):
-                    url = op[1].replace("ws://", "http://").replace("wss://", "https://")
-                    state["headers"] = [header_of(c) for c in op[2]] if k == "S" else []
-                    async with s.get(URL(url), allow_redirects=False) as r:
+                if k in ("S", "F", "R"):
+                    url = web(op[1])
+                    state["headers"] = [header_of(c) for c in op[2]] if k in ("S", "R") else []
+                    state["location"] = web(op[3]) if k == "R" else None
+                    async with s.get(URL(url), allow_redirects=(k == "R")) as r:
                         await r.read()
                     jar_ops.append(["F", url])
-                    if k == "S":
+                    if k in ("S", "R"):
                         jar_ops.append(["S", url, op[2]])
+                    if k == "R":
+                        jar_ops.append(["F", web(op[3])])
                 elif k == "T":
                     CLOCK.now += op[1]; jar_ops.append(op)
                 elif k == "C":
@@ -1105,7 +1277,7 @@ def run_session(ops):
                 elif k == "D":
                     s.cookie_jar.clear_domain(op[1]); jar_ops.append(op)
                 elif k == "L":
-                    p = tmp_path(); s.cookie_jar.save(p); s.cookie_jar.load(p); jar_ops.append(op)
+                    p = tmp_path(); s.cookie_jar.save(p); s.cookie_jar.load(p); jar_ops.append(["L", "same"])
 
     loop = asyncio.new_event_loop()
     try:
@@ -1163,12 +1335,88 @@ def corpus_cases():
     return out
 
 
+def scripted_cases():
+    """deterministic histories that run first on every seed: one per mechanism the check claims to cover, so that no
+    catch depends on the random stream. None of them touches a known finding."""
+    E, S_, O_, V = "example.com", "sub.example.com", "other.example.com", "evil.org"
+    def ck(n, v, **kw):
+        d = {"name": n, "value": v}; d.update(kw); return d
+    allq = [["F", f"{sch}://{h}{p}"] for h in (E, S_, "a." + S_, O_, "not" + E, "com", V, E + ".") for sch in ("http", "https")
+            for p in ("/", "/x", "/x/", "/x/y", "/xy")]
+    cases = []
+    # acceptance: own host, parent, child, sibling, lookalike, public-suffix-like, foreign site, leading dot
+    cases.append(([["S", f"http://{S_}/x/y", [ck("own", "v1"), ck("par", "v2", domain=E), ck("dot", "v3", domain="." + E),
+                                               ck("chi", "v4", domain="a." + S_), ck("sib", "v5", domain=O_),
+                                               ck("look", "v6", domain="ample.com"), ck("tld", "v7", domain="com"),
+                                               ck("for", "v8", domain=V), ck("sec", "v9", secure=True, path="/x"),
+                                               ck("pth", "v10", path="/x/"), ck("dflt", "v11")]],
+                   ["S", f"http://{V}/", [ck("par", "e1", domain=E), ck("own", "e2", domain=S_), ck("evil", "e3")]],
+                   ["S", f"http://not{E}/", [ck("par", "e4", domain=E)]]] + allq + [["X"]], False))
+    # expiry boundaries, deletion by Max-Age=0 / negative / past Expires, overwrite with the cache filled
+    cases.append(([["S", f"http://{E}/", [ck("m5", "v1", maxage="5"), ck("e5", "v2", expires=["ts", NOW0 + 5, 0]),
+                                           ck("ses", "v3"), ck("del0", "v4"), ck("deln", "v5"), ck("dele", "v6")]],
+                   ["F", f"http://{E}/"], ["T", 4], ["F", f"http://{E}/"],
+                   ["S", f"http://{E}/", [ck("del0", "x", maxage="0"), ck("deln", "x", maxage="-1"),
+                                           ck("dele", "x", expires=["ts", NOW0 - 100, 1]), ck("ses", "v7")]],
+                   ["F", f"http://{E}/"], ["T", 1], ["F", f"http://{E}/"], ["F", f"http://{S_}/"], ["T", 1], ["F", f"http://{E}/"],
+                   ["S", f"http://{E}/", [ck("m5", "v8", maxage="100")]], ["T", 99], ["F", f"http://{E}/"], ["T", 1], ["F", f"http://{E}/"],
+                   ["X"]], False))
+    # persistence: host-only flag, deadline, Secure and path survive save+load (fresh and same jar), then expire
+    cases.append(([["S", f"https://{E}/x/y", [ck("ho", "v1", maxage="50"), ck("dom", "v2", domain=E, secure=True), ck("p", "v3", path="/x/")]],
+                   ["L"], ["F", f"https://{S_}/x/y"], ["F", f"http://{E}/x/y"], ["F", f"https://{E}/x"], ["L", "same"],
+                   ["F", f"https://{S_}/x/y"], ["F", f"https://{E}/x/y"], ["T", 50], ["L"], ["F", f"https://{E}/x/y"], ["X"]], False))
+    # clear_domain / clear
+    cases.append(([["S", f"http://{E}/", [ck("a", "v1"), ck("b", "v2", domain=E)]], ["S", f"http://{S_}/", [ck("c", "v3")]],
+                   ["S", f"http://{O_}/", [ck("d", "v4")]], ["S", f"http://{V}/", [ck("e", "v5")]],
+                   ["D", S_], ["F", f"http://{S_}/"], ["F", f"http://{O_}/"], ["D", E], ["F", f"http://{E}/"], ["F", f"http://{O_}/"],
+                   ["F", f"http://{V}/"], ["C"], ["F", f"http://{V}/"], ["X"]], False))
+    # IP policy, both settings
+    ipops = [["S", "http://127.0.0.1/", [ck("a", "v1"), ck("b", "v2", domain="0.0.1")]], ["S", "http://1.127.0.0.1/", [ck("c", "v3", domain="127.0.0.1")]],
+             ["S", "http://[::1]/", [ck("d", "v4")]], ["F", "http://127.0.0.1/"], ["F", "http://1.127.0.0.1/"], ["F", "http://[::1]/"],
+             ["L"], ["F", "http://127.0.0.1/"], ["X"]]
+    cases.append((ipops, False)); cases.append((ipops, True))
+    # treat_as_secure_origin: listed origin, default port, other port, other scheme, sub-domain
+    cases.append(([["O", {"origins": ["http://example.com", "http://sub.example.com:8080"], "form": "mixed"}],
+                   ["S", f"https://{E}/", [ck("s", "v1", secure=True, domain=E), ck("n", "v2", domain=E)]],
+                   ["F", f"http://{E}/"], ["F", f"http://{E}:80/"], ["F", f"http://{E}:8080/"], ["F", f"ws://{E}/"],
+                   ["F", f"http://{S_}/"], ["F", f"http://{S_}:8080/"], ["F", f"https://{S_}/"], ["F", f"HTTP://EXAMPLE.COM/"], ["X"]], False))
+    # heap clean-up at its threshold while a deadline passes unobserved (61 deadlines, 121 heap entries)
+    longs = [ck(f"t{i}", "v", maxage="3600", path="/") for i in range(60)]
+    cases.append(([["S", f"https://{E}/", [ck("sid", "secret", maxage="60", path="/")] + longs], ["T", 10], ["S", f"https://{E}/", longs],
+                   ["T", 49], ["F", f"https://{E}/"], ["T", 2], ["S", f"https://{E}/", longs[:2]], ["X"], ["T", 39], ["F", f"https://{E}/"],
+                   ["T", 1000000], ["F", f"https://{E}/"], ["X"]], False))
+    # spellings: URL forms and header separators
+    cases.append(([["S", f"HTTP://User:pw@EXAMPLE.com:80/x/y?q=/z#frag", [ck("a", "v1", spell={"sep": ";", "eq": " = ", "trail": ";"}, path="/x", secure=True),
+                                                                      ck("b", "v2", case="upper", domain=E, maxage="10")]],
+                   ["F", f"https://{E}:8443/x/y?a=b#c"], ["F", f"http://{E}:8080/x"], ["F", f"https://Sub.Example.COM/x"], ["T", 10],
+                   ["F", f"https://{S_}/"], ["X"]], False))
+    return cases
+
+
+def session_scripted():
+    """deterministic end-to-end cases for the ClientSession layer (redirect hops, unsafe jar, secure origins)"""
+    def ck(n, v, **kw):
+        d = {"name": n, "value": v}; d.update(kw); return d
+    E, S_, V = "example.com", "sub.example.com", "evil.org"
+    return [
+        ([["S", f"https://{E}/login", [ck("sid", "v1", secure=True), ck("d", "v2", domain=E)]],
+          ["R", f"http://{S_}/a", [ck("r", "v3", domain=E)], f"http://{V}/b"], ["F", f"http://{V}/"],
+          ["R", f"https://{E}/x/a", [ck("p", "v4", path="/x")], f"https://{E}/y"], ["F", f"https://{E}/x/z"],
+          ["R", f"http://{V}/", [ck("sid", "e1", domain=E)], f"https://{E}/"]], False),
+        ([["S", "http://127.0.0.1/", [ck("a", "v1")]], ["F", "http://127.0.0.1/x"], ["R", "http://127.0.0.1/", [ck("b", "v2")], "http://1.127.0.0.1/"]], True),
+        ([["O", {"origins": ["http://example.com"], "form": "str"}], ["S", f"https://{E}/", [ck("s", "v1", secure=True)]],
+          ["F", f"http://{E}/"], ["F", f"http://{S_}/"], ["R", f"http://{E}/", [], f"http://{E}:8080/"]], False),
+    ]
+
+
 def check(ctx):
     rng = ctx.rng
     g = Gen(rng)
     lines, pending = [], []
     for case in corpus_cases():
         one_history(ctx, case["ops"], bool(case.get("allow_ip")), "corpus", lines, pending)
+    for ops, allow_ip in scripted_cases():
+        one_history(ctx, ops, allow_ip, "scripted", lines, pending)
     q = ctx.quick
     plan = [("acceptance", 1000 if q else 30000), ("selection", 900 if q else 25000), ("expiry", 1000 if q else 30000),
             ("persistence", 700 if q else 18000), ("malformed", 600 if q else 15000), ("ip", 400 if q else 10000)]
@@ -1184,6 +1432,11 @@ def check(ctx):
         one_history(ctx, g.compaction(), False, "compaction", lines, pending)
     for _ in range(400 if q else 10000):
         one_history(ctx, g.parse_tolerance(), False, "parse-tolerance", lines, pending)
+    for _ in range(500 if q else 12000):
+        base = g.pairs() if rng.random() < 0.3 else g.history(rng.choice(["acceptance", "selection", "expiry", "persistence"]))
+        one_history(ctx, g.spell(base, origins_p=0.3), rng.random() < 0.25, "spellings", lines, pending)
+    for _ in range(250 if q else 6000):
+        one_history(ctx, g.secure_origin(), rng.random() < 0.3, "secure-origin", lines, pending)
     outs = ctx.model(lines)
     if outs is not None:
         for (what, case, impl), out in zip(pending, outs):
@@ -1191,34 +1444,43 @@ def check(ctx):
                 ctx.compare(case, impl, canon_reply(out), "CookieJar vs Aio.C16.step")
             else:
                 ctx.compare(case, impl, canon_reply(out), "python twin of the reference store vs Aio.C16.Ref")
-    # end to end through a real ClientSession (real parse path in, real Cookie header out)
+    # end to end through a real ClientSession (real parse path in, real Cookie header out, redirect hops)
+    sess = [(o, a) for o, a in session_scripted()]
     for _ in range(200 if q else 6000):
         ops = g.history(rng.choice(["acceptance", "selection", "expiry"]))
         ops = [op for op in ops if op[0] != "X"][:10]
         if not is_strict(ops):
             continue
-        fouts, jar_ops = run_session(ops)
+        # some responses are redirects: the Set-Cookie of the 3xx is stored and the next hop gets its own Cookie header
+        ops = [["R", op[1], op[2], g.url(scheme=rng.choice(["http", "https"]))] if op[0] == "S" and rng.random() < 0.3 else op
+               for op in ops]
+        if rng.random() < 0.3:
+            ops = g.spell(ops, origins_p=0.5)
+        sess.append((ops, rng.random() < 0.2))
+    for ops, allow_ip in sess:
+        fouts, jar_ops = run_session(ops, allow_ip)
         ctx.case(("session", ops), nontrivial=any(fouts))
         ctx.hit("hist:session")
         # the session's jar must behave like a bare jar on the equivalent operations …
-        _, fouts2, _, _ = run_impl(jar_ops, False)
+        _, fouts2, _, _ = run_impl(jar_ops, allow_ip)
         if fouts != fouts2:
             ctx.violation("C16/session-cookie-header-differs-from-jar",
-                          {"kind": "session", "ops": ops}, f"Cookie headers {fouts} vs filter_cookies {fouts2}")
+                          {"kind": "session", "allow_ip": allow_ip, "ops": ops}, f"Cookie headers {fouts} vs filter_cookies {fouts2}")
         # … and is judged by the same oracle
-        found, _ = judge(jar_ops, False, fouts)
+        found, _ = judge(jar_ops, allow_ip, fouts)
         for sig, _, _, _ in found:
             ctx.hit("oracle:" + sig)
         if found:
-            report(ctx, jar_ops, False, found)
+            report(ctx, jar_ops, allow_ip, found)
     _cleanup_tmp()
 
 
 def replay(ctx, case):
     if case.get("kind") == "session":
-        fouts, jar_ops = run_session(case["ops"])
-        found, _ = judge(jar_ops, False, fouts)
-        _, fouts2, _, _ = run_impl(jar_ops, False)
+        aip = bool(case.get("allow_ip"))
+        fouts, jar_ops = run_session(case["ops"], aip)
+        found, _ = judge(jar_ops, aip, fouts)
+        _, fouts2, _, _ = run_impl(jar_ops, aip)
         if fouts != fouts2:
             ctx.violation("C16/session-cookie-header-differs-from-jar", case, f"{fouts} vs {fouts2}")
     else:
